@@ -4,7 +4,8 @@ Line-protocol driver for the CodeHolder model (C03 label references, C04 relocat
 model mode   : `init <x86|x64|a64> <base hex | ->` starts a program; every op line is answered
                `<Err> <size of current section> <unresolved count>` (+ ` <reduction>` for relocate);
                `dump` prints layout, bytes and label table;
-               `jitadd <rx hex>` = JitRuntime::add with the span at rx: `<Err> <size> <count> <rx> <code size> <image hex>`,
+               `jitadd <rx hex> [<rw hex>]` = JitRuntime::add with the span at rx (writable view at rw):
+               `<Err> <size> <count> <rx> <code size> <image hex> rw=<rw> base=<base>`,
                `jitrelease` -> `<Err> <size> <count> live=0`;
                `newnamed <name>` / `byname <name>` (named labels; `-` = empty name, `@n` = n letters) -> `<Err> <size> <count>` / `id=<n>|invalid`.
 monitor mode : `moninit <arch> <base|->`, `mon <Err> <size> <count> | <op words>` (implementation's answer + op; no output),
@@ -158,17 +159,19 @@ def stepLine (st : DS) (line : String) : DS × String :=
     match labelByName st.names (decodeName nm) with
     | some id => (st, s!"id={id}")
     | none => (st, "id=invalid")
-  | ["jitadd", b] =>
-    -- `JitRuntime::add`; the span address is the one the real allocator returned (given by the check script)
-    match bv64? b with
-    | some rx =>
-      let (s', r) := jitAdd st.model rx
-      match r with
-      | .ok img => ({ st with model := s', added := true },
-                    answer s' .ok ++ s!" {toHex rx.toNat} {img.length} {if img.isEmpty then "-" else bytesToHex img}")
-      | .noCode => ({ st with model := s', added := false }, s!"NoCodeGenerated {s'.curOff} {s'.count}")
-      | .failed e => ({ st with model := s', added := false }, answer s' e)
-    | none => (st, "bad-op")
+  | "jitadd" :: b :: rest =>
+    -- `JitRuntime::add`; the span (executable address rx, writable address rw: equal unless the allocator is dual-mapped) is the
+    -- one the real allocator returned (given by the check script). Answer: what a fetch through rx sees, and the base address.
+    match bv64? b, (match rest with | [w] => bv64? w | _ => bv64? b) with
+    | some rx, some rw =>
+      let (s', r, sp) := jitAddVia st.model { rx := rx, rw := rw, mem := [] }
+      match r, sp.bind (fun sp => sp.fetch rx) with
+      | .ok _, some img => ({ st with model := s', added := true },
+                    answer s' .ok ++ s!" {toHex rx.toNat} {img.length} {if img.isEmpty then "-" else bytesToHex img} rw={toHex rw.toNat} base={toHex s'.base.toNat}")
+      | .ok _, none => ({ st with model := s', added := false }, "span-not-written")
+      | .noCode, _ => ({ st with model := s', added := false }, s!"NoCodeGenerated {s'.curOff} {s'.count}")
+      | .failed e, _ => ({ st with model := s', added := false }, answer s' e)
+    | _, _ => (st, "bad-op")
   | ["jitrelease"] =>
     -- `JitRuntime::release`: kInvalidArgument for the null pointer a failed add left; nothing stays allocated
     ({ st with added := false }, answer st.model (if st.added then .ok else .invalidArgument) ++ " live=0")
